@@ -216,7 +216,10 @@ def run_cached(scenarios, seed, tier):
     """The main batch is shared by C10 and C13: cached by seed/tier/tree/generator."""
     key = hashlib.sha256(json.dumps([seed, tier, tree_hash(), GEN_VERSION, len(scenarios)]).encode()).hexdigest()[:16]
     cp = os.path.join(RUN, "cache_%s.json" % key)
-    with Lock("c10_run"):
+    # one lock PER KEY: only the twin check of the same seed/tier/tree waits for this run; a check on another tree or tier
+    # (e.g. a quick run while a thorough run is in progress) must not queue behind it
+    os.makedirs(RUN, exist_ok=True)
+    with Lock("run/c10/lock_" + key):
         if os.path.exists(cp):
             try:
                 c = json.load(open(cp))
@@ -227,7 +230,7 @@ def run_cached(scenarios, seed, tier):
         t0 = time.time()
         traces, note = run_harness(scenarios, "main_" + key, timeout=1500 if tier != "quick" else 600)
         dt = time.time() - t0
-        for old in glob.glob(os.path.join(RUN, "cache_*.json")):
+        for old in glob.glob(os.path.join(RUN, "cache_*.json")) + glob.glob(os.path.join(RUN, "lock_*.lock")):
             if time.time() - os.path.getmtime(old) > 6 * 3600:
                 os.remove(old)
         json.dump({"scenarios": scenarios, "traces": traces, "note": note, "seconds": dt}, open(cp, "w"))
